@@ -15,7 +15,7 @@ PROP = {
         'Altrios.Proofs.C08.C08_loco_step', 'Altrios.Proofs.C08.C08_loco_dyn_zero', 'Altrios.Proofs.C08.C08_walk_monotone',
         'Altrios.Proofs.C08.C08_walk_step',
         'Altrios.Proofs.C08Hyb.C08_hybrid_step', 'Altrios.Proofs.C08Hyb.C08_hybrid_handoff', 'Altrios.Proofs.C08Hyb.C08_hybrid_res_share_le_max',
-        'Altrios.Proofs.C08Hyb.C08_hybrid_gss_bounds', 'Altrios.Proofs.C08Hyb.C08_hybrid_ledger', 'Altrios.Proofs.C08Hyb.C08_hybrid_loco_step', 'Altrios.Proofs.C08Hyb.C08_hybrid_engine_off_counterexample',
+        'Altrios.Proofs.C08Hyb.C08_hybrid_gss_bounds', 'Altrios.Proofs.C08Hyb.C08_hybrid_ledger', 'Altrios.Proofs.C08Hyb.C08_hybrid_walk', 'Altrios.Proofs.C08Hyb.C08_hybrid_loco_step', 'Altrios.Proofs.C08Hyb.C08_hybrid_engine_off_counterexample',
     ] + KERNEL_THEOREMS,
     'nontrivial_stats': ['pt.loco.traction', 'pt.loco.braking', 'pt.loco.engine_off_step',
                          'pt.consist.traction_', 'pt.consist.braking_', 'pt.hyb.traction', 'pt.hyb.braking', 'pt.hyb.split_changed_by_search'],
@@ -36,5 +36,5 @@ TEXT = {
             'component and both flow directions loss >= 0 and out <= in; dynamic braking is >= 0 and zero unless braking is '
             'demanded; cumulative fuel / loss / dyn-brake energies never decrease along any accepted trace (C08_walk_monotone, '
             'induction); an engine commanded off burns no fuel and draws no aux (C08_engine_off_loco; true of the repaired code, '
-            'fix: e453317). Hybrids (Altrios/Hybrid.lean, Proofs/C08Hyb.lean): the same clauses for all four components of a hybrid in every accepted step FOR EVERY SPLIT the controller or the golden-section search may choose (C08_hybrid_step), the internal hand-offs (C08_hybrid_handoff), battery share <= its published limit (C08_hybrid_res_share_le_max), search interval within [0,1] (C08_hybrid_gss_bounds); the engine-off clause is false of hybrids (C08_hybrid_engine_off_counterexample, known finding C08-hybrid-ignores-engine-off). The search itself (argmin) is an external call, not modelled.',
+            'fix: e453317). Hybrids (Altrios/Hybrid.lean, Proofs/C08Hyb.lean): the same clauses for all four components of a hybrid in every accepted step FOR EVERY SPLIT the controller or the golden-section search may choose (C08_hybrid_step), the internal hand-offs (C08_hybrid_handoff), battery share <= its published limit (C08_hybrid_res_share_le_max), search interval within [0,1] (C08_hybrid_gss_bounds); whole hybrid traces with ANY sequence of splits: cumulative energies monotone over every prefix, every component within the second law after every step (C08_hybrid_walk, induction); the engine-off clause is false of hybrids (C08_hybrid_engine_off_counterexample, known finding C08-hybrid-ignores-engine-off). The search itself (argmin) is an external call, not modelled.',
 }
